@@ -49,3 +49,34 @@ Theorem C20_sync_position : forall HO root t (stream : bytes HO) q ys st,
   stream = flat_items HO ys ++ d_enc HO st.
 Proof. exact dec_reader_position. Qed.
 Print Assumptions C20_sync_position.
+
+(* ======== End-to-end composition (proofs in Proofs/E2EMisc.v) ======== *)
+From BaoV Require Import Spec.HashAssm Spec.RangeSpec Proofs.E2EGlue Proofs.E2EDecode Proofs.E2EMisc.
+
+(* on the honest encoding of a blob followed by `rest`, the reader set up for (root hash, tree, q) makes
+   exactly the honest items in successful calls of next, and the following call of next hands back the
+   reader positioned at `rest` (as does finish) *)
+Theorem C20_e2e_done_position : forall HO, hash_ok HO ->
+  forall (data : bytes HO) (bs : N) (q : ranges),
+  (blen HO data <= 2 ^ 63)%N -> (bs <= 10)%N -> wf_ranges q = true -> q <> [] ->
+  forall rest : bytes HO,
+  exists st,
+    rd_ok_run HO (rd_new HO (root_hash HO data) q (mkTree (blen HO data) bs)
+                         (flat HO (honest HO data bs q) ++ rest))
+              (honest HO data bs q) st /\
+    rd_next HO st = RDone rest /\ rd_finish HO st = rest.
+Proof. exact e2e_done_position. Qed.
+Print Assumptions C20_e2e_done_position.
+
+(* the sync decoder likewise: after exactly the honest items next returns None with `rest` unread *)
+Theorem C20_e2e_done_position_sync : forall HO, hash_ok HO ->
+  forall (data : bytes HO) (bs : N) (q : ranges),
+  (blen HO data <= 2 ^ 63)%N -> (bs <= 10)%N -> wf_ranges q = true -> q <> [] ->
+  forall rest : bytes HO,
+  exists st,
+    dec_ok_run HO (dec_new HO (root_hash HO data) (mkTree (blen HO data) bs)
+                           (flat HO (honest HO data bs q) ++ rest) q)
+               (honest HO data bs q) st /\
+    dec_next HO st = None /\ d_enc HO st = rest.
+Proof. exact e2e_done_position_sync. Qed.
+Print Assumptions C20_e2e_done_position_sync.
